@@ -362,6 +362,8 @@ static bool pk_op(MPIPack& p, const std::string& op, std::size_t prelen, std::st
 {
   auto it = split(op, '|');
   if (it[0] == "k") { p.seek(it[1] == "end" ? (int) p.size() : (int) toll(it[1])); r += "/K" + pk_state(p); return true; }
+  if (it[0] == "z") { p.resize((std::size_t) toll(it[1])); r += "/Z" + pk_buf(p) + "," + pk_state(p); return true; }
+  if (it[0] == "g") { p.enlarge((int) toll(it[1])); r += "/Z" + pk_buf(p) + "," + pk_state(p); return true; }
   if (it[0] == "s" || it[0] == "d") {
     auto bytes = unhex(it[2]);
     bool ok = dispatch(it[1], [&](auto tag) { typedef typename decltype(tag)::Codec::T T;
@@ -517,7 +519,10 @@ int main(int argc, char** argv)
         int ps = 0; MPI_Pack_size(1, MPITraits<T>::getType(), MPI_COMM_WORLD, &ps); MPI_Aint lb, ext; MPI_Type_get_extent(MPITraits<T>::getType(), &lb, &ext);
         MPI_Aint tlb, text; MPI_Type_get_true_extent(MPITraits<T>::getType(), &tlb, &text);
         mine = "size=" + std::to_string(ps) + " extent=" + std::to_string((long) ext) + " sizeof=" + std::to_string(sizeof(T))
-             + " lb=" + std::to_string((long) lb) + " tlb=" + std::to_string((long) tlb) + " tub=" + std::to_string((long) (tlb + text)); }); }
+             + " lb=" + std::to_string((long) lb) + " tlb=" + std::to_string((long) tlb) + " tub=" + std::to_string((long) (tlb + text));
+        // the MPIData view of one object: (count, packed size of its datatype, static_size)
+        T obj{}; auto md = getMPIData(obj); int ts = 0; MPI_Type_size(md.type(), &ts);
+        mine += " md=" + std::to_string(md.size()) + "x" + std::to_string(ts) + (decltype(md)::static_size ? "s" : "d"); }); }
     } catch (Dune::Exception& e) { mine = "EXC Dune"; }
     catch (std::exception& e) { mine = std::string("EXC std ") + e.what(); }
     std::string all = collect(mine, me, P);
